@@ -1,0 +1,27 @@
+//go:build verif
+
+package sync2
+
+// Contracts for the typed wrapper around sync.Map. The abstract view of a *Map[K,V] is the pair of model
+// fields Dom (which keys are present) and Val (their values).
+
+//@ ghost field (Map) Dom map[K]bool
+//@ ghost field (Map) Val map[K]V
+
+//@ func (*Map).Load
+//@ trusted
+//@ assigns nothing
+//@ ensures [load-dom] loaded == m.Dom[key]
+//@ ensures [load-val] implies(loaded, v == m.Val[key])
+//@ ensures [load-miss] implies(!loaded, v == zero(V))
+
+//@ func (*Map).Store
+//@ trusted
+//@ assigns m.Dom, m.Val
+//@ ensures [store-dom] m.Dom == store(old(m.Dom), key, true)
+//@ ensures [store-val] m.Val == store(old(m.Val), key, value)
+
+//@ func (*Map).Delete
+//@ trusted
+//@ assigns m.Dom
+//@ ensures [delete-dom] m.Dom == store(old(m.Dom), key, false)
